@@ -336,6 +336,7 @@ type DataOpts struct {
 	OnlyConfig  bool
 	NoDefaultEq bool // never set a leaf to exactly its default
 	Skip        func(n *SNode) bool
+	Strings     []string // overrides the hostile string catalog
 }
 
 func DefaultData() DataOpts { return DataOpts{PSet: 0.6, PKid: 0.7, MaxEntries: 3} }
@@ -367,6 +368,13 @@ func chooseCases(r *rand.Rand, cs []*SNode) []*SNode {
 	return out
 }
 
+func randScalar(r *rand.Rand, t *SType, hostile bool, o DataOpts) string {
+	if hostile && t.Base == "string" && o.Strings != nil {
+		return o.Strings[r.Intn(len(o.Strings))]
+	}
+	return RandScalar(r, t, hostile)
+}
+
 func fill(r *rand.Rand, s *Schema, d *DNode, schemaKids []*SNode, o DataOpts) {
 	for _, c := range chooseCases(r, schemaKids) {
 		if o.OnlyConfig && !c.Config {
@@ -381,7 +389,7 @@ func fill(r *rand.Rand, s *Schema, d *DNode, schemaKids []*SNode, o DataOpts) {
 				continue // set by the list generator
 			}
 			if r.Float64() < o.PSet {
-				v := RandScalar(r, c.Type, o.Hostile && r.Intn(2) == 0)
+				v := randScalar(r, c.Type, o.Hostile && r.Intn(2) == 0, o)
 				if o.NoDefaultEq && c.Default != nil && v == *c.Default {
 					continue
 				}
@@ -393,7 +401,7 @@ func fill(r *rand.Rand, s *Schema, d *DNode, schemaKids []*SNode, o DataOpts) {
 				l := &LVal{List: true, V: []string{}}
 				seen := map[string]bool{}
 				for i := 0; i < n; i++ {
-					v := RandScalar(r, c.Type, o.Hostile && r.Intn(2) == 0)
+					v := randScalar(r, c.Type, o.Hostile && r.Intn(2) == 0, o)
 					if seen[v] {
 						continue
 					}
@@ -420,7 +428,7 @@ func fill(r *rand.Rand, s *Schema, d *DNode, schemaKids []*SNode, o DataOpts) {
 					for _, kn := range c.Keys {
 						ks := c.Child(kn)
 						hostile := o.Hostile && ks.Type.Base == "string" && r.Intn(2) == 0
-						v := RandScalar(r, ks.Type, hostile)
+						v := randScalar(r, ks.Type, hostile, o)
 						if ks.Type.Base == "string" && v == "" {
 							v = "k"
 						}
